@@ -22,17 +22,25 @@ fn push_kv<K: El, V: El>(o: &mut Obs, k: &K, v: &V) {
 }
 
 pub fn bh_from_code(code: u64) -> Bh {
+    if code >= 1 << 40 {
+        return Bh::new(HMode::OneShot, code - (1 << 40));
+    }
     Bh::new(HMODES[(code % 6) as usize], code / 6)
 }
 pub fn bh_to_code(bh: &Bh) -> u64 {
-    let m = HMODES.iter().position(|x| *x == bh.mode).unwrap() as u64;
-    bh.seed * 6 + m
+    match HMODES.iter().position(|x| *x == bh.mode) {
+        Some(m) => bh.seed * 6 + m as u64,
+        None => (1 << 40) + bh.seed,
+    }
 }
 
 impl<K: El, V: El> Mon<K, V> {
     pub fn exec(&mut self, op: &Op, st0: &State, loc0: Option<Location>) -> Res<Out> {
         use Code::*;
         let mut out = Out::new();
+        if !matches!(op.code, Probe | Reserve | TryReserve) {
+            self.promised = 0;
+        }
         let k = op.k;
         let loc = loc0.unwrap_or(Location::Absent);
         let present = self.model.contains_key(&k);
@@ -948,7 +956,10 @@ impl<K: El, V: El> Mon<K, V> {
                         let kv = self.next_fresh();
                         let (kk, v) = (K::mk(kv), V::mk(kv));
                         self.model.insert(kv, Slot { kid: kk.id(), vid: v.id(), pay: kv });
-                        self.map.insert(kk, v);
+                        // any key-adding call must do: vary the one used
+                        if add_new_key(&mut self.map, kk, v, mix(kv ^ 0xadd)) {
+                            viol!("C10", "fresh key {kv} reported as present while filling with_capacity({n})");
+                        }
                     }
                     if self.alloc_checks && table_allocs() != a1 {
                         viol!("C10", "with_capacity({n}) followed by {n} insertions reallocated");
@@ -974,6 +985,7 @@ impl<K: El, V: El> Mon<K, V> {
                         if self.map.capacity() < len0.saturating_add(n) {
                             viol!("C10", "after reserve({n}) capacity() = {} < len() + n = {}", self.map.capacity(), len0.saturating_add(n));
                         }
+                        self.promised = n;
                     }
                     Err(p) => {
                         rethrow_fuse(&p);
@@ -1028,6 +1040,7 @@ impl<K: El, V: El> Mon<K, V> {
                         if self.map.capacity() < len0.saturating_add(n) {
                             viol!("C10", "after Ok from try_reserve({n}) capacity() = {} < len() + n = {}", self.map.capacity(), len0.saturating_add(n));
                         }
+                        self.promised = n;
                     }
                     Ok(Err(e)) => {
                         out.act.push(3);
@@ -1092,19 +1105,27 @@ impl<K: El, V: El> Mon<K, V> {
         let mut cap = self.map.capacity();
         let cap_limit = 1usize << 16;
         let n = n.min(cap_limit);
+        // what the capacity call just before promised (C10: "the next n new keys are inserted
+        // without reallocation"): a failure among those insertions is that call's as well
+        let promised = std::mem::take(&mut self.promised);
+        // the key-adding call used varies (insert, entry and raw-entry insertions); one probe in
+        // four sticks to insert()
+        let vary = self.nops % 4 != 3;
         for i in 0..n {
+            let more: &'static [&'static str] = if i < promised { &["C10"] } else { &[] };
             let kv = self.next_fresh();
             let (kk, v) = (K::mk(kv), V::mk(kv));
             self.model.insert(kv, Slot { kid: kk.id(), vid: v.id(), pay: kv });
             let map = &mut self.map;
-            let res = catch(|| map.insert(kk, v));
+            let how = if vary { mix(kv ^ 0xadd) } else { 0 };
+            let res = catch(|| add_new_key(map, kk, v, how));
             match res {
                 Err(p) => {
                     rethrow_fuse(&p);
-                    viol!("C04", "probe insertion {} of {} panicked: {p}", i + 1, n)
+                    return Err(Viol { extra: Vec::new(), prop: "C04", more, msg: format!("probe insertion {} of {} (through {}) panicked: {p}", i + 1, n, ADD_HOW[(how % 6) as usize]) });
                 }
-                Ok(Some(_)) => viol!("C04", "probe key {kv} was reported as already present"),
-                Ok(None) => {}
+                Ok(true) => viol!("C04", "probe key {kv} was reported as already present"),
+                Ok(false) => {}
             }
             let c = self.map.capacity();
             if c < cap {
@@ -1112,7 +1133,12 @@ impl<K: El, V: El> Mon<K, V> {
             }
             cap = c;
             if self.alloc_checks && table_allocs() != a0 {
-                viol!("C04", "probe insertion {} of {} allocated a table (state before the probe: {:?})", i + 1, n, st0);
+                return Err(Viol {
+                    extra: Vec::new(),
+                    prop: "C04",
+                    more,
+                    msg: format!("probe insertion {} of {} (through {}) allocated a table (state before the probe: {:?}; promised by the preceding capacity call: {})", i + 1, n, ADD_HOW[(how % 6) as usize], st0, promised),
+                });
             }
             if self.map.capacity() < self.map.len() {
                 viol!("C04", "capacity() < len() during the probe");
@@ -1132,6 +1158,51 @@ impl<K: El, V: El> Mon<K, V> {
         out.exp.push(n as u64);
         out.kind = Kind::Bulk { new_keys: n, hashes_max: None, may_alloc: false };
         Ok(())
+    }
+}
+
+pub const ADD_HOW: [&str; 6] = ["insert", "entry().or_insert", "VacantEntry::insert", "Entry::insert", "RawVacantEntryMut::insert", "raw_entry_mut().or_insert"];
+
+/// Add a key through one of the key-adding calls; true if the call reported it as present.
+pub fn add_new_key<K: El, V: El>(map: &mut HashMap<K, V, Bh>, kk: K, v: V, how: u64) -> bool {
+    use griddle::hash_map::{Entry, RawEntryMut};
+    match how % 6 {
+        0 => map.insert(kk, v).is_some(),
+        1 => {
+            let mut present = false;
+            map.entry(kk)
+                .and_modify(|_| {
+                    present = true;
+                })
+                .or_insert(v);
+            present
+        }
+        2 => match map.entry(kk) {
+            Entry::Vacant(e) => {
+                e.insert(v);
+                false
+            }
+            Entry::Occupied(_) => true,
+        },
+        3 => match map.entry(kk) {
+            e @ Entry::Vacant(_) => {
+                let _ = e.insert(v);
+                false
+            }
+            Entry::Occupied(_) => true,
+        },
+        4 => match map.raw_entry_mut().from_key(&kk) {
+            RawEntryMut::Vacant(e) => {
+                e.insert(kk, v);
+                false
+            }
+            RawEntryMut::Occupied(_) => true,
+        },
+        _ => {
+            let present = map.contains_key(&kk);
+            map.raw_entry_mut().from_key(&kk).or_insert(kk, v);
+            present
+        }
     }
 }
 
